@@ -320,6 +320,35 @@ func (la *lockAnalysis) callTargets(fn *ssa.Function, c *ssa.CallCommon) (target
 	return
 }
 
+// calleeOps: the blocking operations of a static callee as seen from a call site: a channel the callee knows only as
+// its parameter is the channel the caller passes there (an extracted helper must not change what a wait is called).
+func (la *lockAnalysis) calleeOps(t *ssa.Function, c *ssa.CallCommon) map[string]bool {
+	src := la.blk[t]
+	if c == nil || c.IsInvoke() || c.StaticCallee() != t {
+		return src
+	}
+	out := map[string]bool{}
+	for op := range src {
+		i := strings.Index(op, ":param:")
+		if i < 0 {
+			out[op] = true
+			continue
+		}
+		name := op[i+len(":param:"):]
+		done := false
+		for k, p := range t.Params {
+			if p.Name() == name && k < len(c.Args) {
+				out[op[:i+1]+chanDesc(c.Args[k])] = true
+				done = true
+			}
+		}
+		if !done {
+			out[op] = true
+		}
+	}
+	return out
+}
+
 func addAll(dst map[string]bool, src map[string]bool) bool {
 	ch := false
 	for k := range src {
@@ -424,7 +453,7 @@ func (la *lockAnalysis) summaries() {
 						if addAll(la.acq[fn], la.acq[t]) {
 							changed = true
 						}
-						if addAll(la.blk[fn], la.blk[t]) {
+						if addAll(la.blk[fn], la.calleeOps(t, c)) {
 							changed = true
 						}
 					}
@@ -477,7 +506,7 @@ func (la *lockAnalysis) applyCall(fn *ssa.Function, held heldSet, c *ssa.CallCom
 		for _, k := range sortedKeys(la.acq[t]) {
 			la.recordAcquire(fn, held, k, "W", fnKey(t), pos)
 		}
-		for _, o := range sortedKeys(la.blk[t]) {
+		for _, o := range sortedKeys(la.calleeOps(t, c)) {
 			la.recordWait(fn, held, o, fnKey(t), pos)
 		}
 	}
